@@ -2,7 +2,29 @@
 
 Same exploration as C03 (harness/schedcase.py) including crossing / cyclic /
 self-addressed sends; oracle: every client Deferred fires within 600 s of
-virtual time and, at quiescence, no node lock and no qubit lock is held."""
+virtual time and, at quiescence, no node lock and no qubit lock is held.
+
+Two directed families on top of the pair exploration (schedcase.family_tasks;
+they run first and are never skipped for time):
+
+* "slow grant": ONE two-qubit gate, no contention; a lock request of
+  `_lock_nodes` -- or the grant on its way back -- is slower than the 1-4 s
+  back-off time-out, afterwards the network is fast again (timer-versus-message
+  race of a single operation with itself);
+* "operations waiting for one missing connection": the network is still coming
+  up (`SimNet(..., bringup=spec)`: a directed connection is refused and retried by
+  the node), 2-3 operations on different handles all wait in `get_connection` for
+  the same peer, then the connection comes up.
+
+A schedule in which nothing is deliverable any more, only timers fire (lock
+pollers, `_lock_nodes` time-outs and retries), some lock is held and no operation
+completes for 60 virtual seconds (one and the same lock acquisition) / 90
+virtual seconds (locks taken and released all the time) is given up as hanging
+at that point instead of after 600 s (`schedcase.Stall`): every cancelled lock
+request leaves a poller behind, so hanging schedules get quadratically more
+expensive with the virtual time they are given.  The longest such period seen
+in a run that does complete is reported in the counts ("~completed although
+...") -- 14 s at most in 630 000 thorough-tier schedules."""
 from .. import core
 from .. import schedcase
 from .. import skeltrace
@@ -14,7 +36,11 @@ TRUSTED = [
     "harness/simnet.py: fake reactor + Perspective Broker over in-memory pipes, one schedulable event per PB message, "
     "per-connection FIFO, fake clock (virtual time: a 600 s hang costs milliseconds)",
     "harness/schedcase.py: attribution of messages/timers to operations, schedule policies, lock monitor "
-    "(twisted DeferredLock.acquire/release wrapped from outside)",
+    "(twisted DeferredLock.acquire/release wrapped from outside); early hang verdict (schedcase.Stall: 60 / 90 virtual s "
+    "without a completion while a lock is held, nothing is deliverable and only timers fire) in place of the full budget",
+    "harness/simnet.py bring-up mode (connect attempts decided at the virtual time they are made, connection retries as "
+    "background timers; when every operation waits without a timer of its own the earliest retry is fired: "
+    "SimNet.fire_next_retry)",
     "AST translator harness/gen/skel.py (skeletons of virtual.py / quantum.py for locks_balanced / hold-and-wait analysis): "
     "validated dynamically by trace acceptance (harness/skeltrace.py: every activation of a translated method recorded on "
     "the real code -- node/qubit lock operations, mutations of virtQubits/simQubits/registers, node-method calls, with roles, "
@@ -27,7 +53,11 @@ ASSUMPTIONS = [
     "stabilizer backend, three nodes, at most two client connections per node; 1-2 concurrent operations exhaustively at "
     "the stated delay bound, 3-4 sampled",
     "back-off draws are scripted: pairwise distinct (main class) and four equal draws followed by distinct ones (stressed class)",
-    "budget: 600 s of virtual time per operation set",
+    "budget: 600 s of virtual time per operation set; a run without any completion for 60 / 90 virtual s in which only "
+    "timers fire and a lock is held counts as never completing",
+    "slow grant: one message held (request or reply of one get_global_lock of _lock_nodes), first back-off draw 1 s or 4 s; "
+    "missing connection: two bring-up schedules (Alice->Bob missing; Bob late: Alice->Bob and Charlie->Bob missing), "
+    "conn_retry_time 0.5 s",
 ]
 
 
